@@ -234,47 +234,115 @@ def r1(ctx, r):
     r.floor(20, "access sites of _queue")
 
 
-def _local_bool_of(f, c):
-    """the node a condition operand stands for: a bool local that is initialised once and never assigned again is its initialiser
-    (`const bool was = flag.exchange(true); …; if (was)` tests the exchange's result wherever the test is placed)"""
+def _stands_for(f, c, src):
+    """the condition operand c is the value node `src` produced: c is src itself, or a bool local that receives src's value — as its
+    initialiser or by one plain assignment — and is not written again on any path from there (`const bool was = flag.exchange(true);
+    unlock; if (was)` and `bool was = false; { lock; was = flag.exchange(true); } if (was)` both test the exchange's result, wherever
+    the test is placed).  Reaching definitions over the CFG; no name is looked at."""
     c = strip_casts(c)
-    if c is None or c.get("k") != "var" or c.get("parm") is not None:
-        return c
+    if c is None or src is None:
+        return False
+    if c.get("id") is not None and c.get("id") == src.get("id"):
+        return True
+    if c.get("k") != "var" or c.get("parm") is not None:
+        return False
     d = c.get("d")
+
+    def is_d(x):
+        x = strip_casts(x) if isinstance(x, dict) else None
+        return x is not None and x.get("k") == "var" and x.get("d") == d
+    writes = []     # (element, assigned value | None when the write is not a plain assignment)
     for n in f.nodes.values():
-        if n.get("k") in ("bin", "opcall") and str(n.get("op", "")).endswith("=") and n.get("op") not in ("==", "!=", "<=", ">="):
-            lhs = n.get("lhs") if n.get("k") == "bin" else (n.get("args") or [None])[0]
-            if lhs is not None and strip_casts(lhs).get("k") == "var" and strip_casts(lhs).get("d") == d:
-                return c
-        if n.get("k") == "un" and ("++" in n.get("op", "") or "--" in n.get("op", "") or n.get("op") == "&") and strip_casts(n.get("v") or {}).get("d") == d \
-                and strip_casts(n.get("v") or {}).get("k") == "var":
-            return c
-    for e in f.stmts():
-        if e.node.get("k") == "decl":
-            for v in e.node["vars"]:
-                if v["d"] == d and v["t"].replace("const ", "").strip() == "bool" and isinstance(v.get("init"), dict):
-                    return strip_casts(v["init"])
-    return c
+        k = n.get("k")
+        if k in ("bin", "opcall") and str(n.get("op", "")).endswith("=") and n.get("op") not in ("==", "!=", "<=", ">="):
+            lhs, rhs = (n.get("lhs"), n.get("rhs")) if k == "bin" else ((n.get("args") or [None, None]) + [None])[:2]
+            if is_d(lhs):
+                writes.append((f.elem_for(n), rhs if n.get("op") == "=" else None))
+        elif k == "un" and ("++" in n.get("op", "") or "--" in n.get("op", "") or n.get("op") == "&") and is_d(n.get("v")):
+            writes.append((f.elem_for(n), None))
+        elif k == "decl":
+            for v in n["vars"]:
+                if v["d"] == d:
+                    if v["t"].replace("const ", "").strip() != "bool":
+                        return False
+                    if isinstance(v.get("init"), dict):
+                        writes.append((f.elem_for(n), v["init"]))
+    defs = [e for (e, v) in writes if e is not None and isinstance(v, dict) and strip_casts(v).get("id") is not None and strip_casts(v).get("id") == src.get("id")]
+    if len(defs) != 1 or any(e is None for (e, v) in writes):
+        return False
+    others = [e for (e, v) in writes if e is not defs[0]]
+    return search(f, defs[0], lambda x: any(x is o for o in others), eh=False) is None
+
+
+def _enclosing_loop_cond(f, e):
+    """the operand nodes of the condition of the innermost loop around element e whose condition is evaluated again after e (the
+    block of e reaches the loop's branch and the loop's body edge reaches the block of e); None if e is not in such a loop.  A
+    short-circuit condition is branched on operand by operand: the operands are the conditions of the `&&`/`||`-terminated blocks
+    that lead straight into the loop's branch block."""
+    def reach(src):
+        seen, work = set(), [src]
+        while work:
+            b = work.pop()
+            if b is None or b in seen:
+                continue
+            seen.add(b)
+            work.extend(x for x in f.blocks[b].succs if x is not None)
+        return seen
+    frm = reach(e.block.id)
+    best = None
+    for b in f.blocks.values():
+        t = b.term
+        if not t or t.get("k") not in ("WhileStmt", "DoStmt", "ForStmt") or "cond" not in t or len(b.succs) != 2 or b.succs[0] is None:
+            continue
+        body = reach(b.succs[0])
+        if b.id in frm and e.block.id in body:
+            if best is None or len(body) < best[0]:
+                best = (len(body), b)
+    if not best:
+        return None
+    chain, grew = {best[1].id}, True
+    while grew:
+        grew = False
+        for x in f.blocks.values():
+            if x.id not in chain and x.term and x.term.get("k") == "BinaryOperator" and "cond" in x.term and any(y in chain for y in x.succs if y is not None):
+                chain.add(x.id)
+                grew = True
+    return [n for n in (f.nodes.get(f.blocks[i].term["cond"]) for i in chain) if n is not None]
 
 
 def _cv_pred_helpers(r, fb, la):
-    """common.cv_discipline reads the variables of a wait predicate off the lambda's own body.  A predicate that calls helper(s)
-    of the class (`[this] { return hasSpaceOrClosed(); }`) reads the helpers' variables: the same obligation — written only with
-    the wait's mutex held, or the mutex taken between the write and the notify — is discharged here for those."""
+    """common.cv_discipline reads the variables of a wait predicate off the lambda's own body and skips a wait that has none.
+    Two spellings of the same predicate it does not see are discharged here with the same obligation (the variable is written only
+    with the wait's mutex held, or the mutex is taken between the write and the notify):
+      * a predicate that calls helper(s) of the class (`[this] { return hasSpaceOrClosed(); }`) reads the helpers' variables;
+      * `while (!pred) cv.wait(lock);` — the predicate of a wait without one is the condition of the loop that re-tests after it."""
     seen = set()
+
+    def fields(nodes):
+        return {n["n"] for n in nodes if n.get("k") == "member" and "t" in n and not n.get("t", "").startswith(("std::mutex", "std::condition_variable"))}
     for w in common.cv_waits(fb, lambda f: f.file.endswith(BQ_FILE)):
         f, e, P = w["f"], w["e"], w["pred"]
-        if P is None or (f.file, e.line) in seen:
+        if (f.file, e.line) in seen:
             continue
         seen.add((f.file, e.line))
-
-        def fields(g):
-            return {n["n"] for n in g.nodes.values() if n.get("k") == "member" and "t" in n and not n.get("t", "").startswith(("std::mutex", "std::condition_variable"))}
         extra = set()
-        for g in _transitive_helpers(fb, BQ, P).values():
-            if g is not P:
-                extra |= fields(g)
-        extra -= fields(P)
+        if P is not None:
+            how = "through a helper by the predicate of the wait"
+            for g in _transitive_helpers(fb, BQ, P).values():
+                if g is not P:
+                    extra |= fields(g.nodes.values())
+            extra -= fields(P.nodes.values())
+        elif not w["has_pred"]:
+            how = "by the loop condition around the predicate-less wait"
+            lc = _enclosing_loop_cond(f, e)
+            if lc is None:
+                continue        # no re-testing loop in this function: the caller's business (common notes it)
+            operands = [x for c in lc for x in walk(c)]
+            extra = fields(operands)
+            for x in operands:
+                for g0 in _helper_fns(fb, BQ, x):
+                    for g in _transitive_helpers(fb, BQ, g0).values():
+                        extra |= fields(g.nodes.values())
         if not extra:
             continue
         lv = w["lockvar"]
@@ -289,7 +357,7 @@ def _cv_pred_helpers(r, fb, la):
                     continue
                 r.instance()
                 if la.holds(g, ge, mtx):
-                    r.ok("%s writes %s under %s (read through a helper by the predicate of the wait in %s)" % (short(g.name), last(fld), last(mtx), short(f.name)))
+                    r.ok("%s writes %s under %s (read %s in %s)" % (short(g.name), last(fld), last(mtx), how, short(f.name)))
                     continue
 
                 def is_notify(x):
@@ -307,8 +375,8 @@ def _cv_pred_helpers(r, fb, la):
                     r.ok("%s writes %s outside the lock; %s" % (short(g.name), last(fld), "the waiter is timed (bounded delay)" if wit is not None else "takes %s before notifying" % last(mtx)))
                     continue
                 r.fail(g, ge, "write %s then notify %s" % (last(fld), last(cvf or "?")),
-                       "lost wake-up: %s is read (through a helper) by the predicate of the untimed wait at %s under %s, but is written here "
-                       "without that mutex and the notify follows with the mutex never taken in between" % (fld, f.loc(e), mtx), witness_str(g, wit))
+                       "lost wake-up: %s is read (%s) at %s under %s — an untimed wait — but is written here "
+                       "without that mutex and the notify follows with the mutex never taken in between" % (fld, how, f.loc(e), mtx), witness_str(g, wit))
 
 
 def r2(ctx, r):
@@ -360,14 +428,13 @@ def r2(ctx, r):
                     and field_of(x.node.get("obj")) == BQ + "::" + cv
             # the "already closed" early return is the only path allowed to skip the notify: it is the edge on which the flip's
             # own result (the previous value of the flag) is true — tested directly (`if (_closed.exchange(true))`) or through
-            # a bool local that holds nothing but that result (`const bool was = _closed.exchange(true); unlock; if (was) return;`);
+            # a bool local that holds nothing but that result when the test is reached (_stands_for);
             # which edge that is follows from the condition's polarity (common.branch removes the `!`s)
             def edge_ok(b, si, e=e):
                 c, st, sf = common.branch(b)
                 if c is None:
                     return True
-                c = _local_bool_of(close, c)
-                if c is not None and c.get("id") is not None and c.get("id") == e.node.get("id") and b.succs[si] == st and st != sf:
+                if _stands_for(close, c, e.node) and b.succs[si] == st and st != sf:
                     return False   # exchange returned true: was already closed, somebody else notified
                 return True
             w = search(close, e, "exit", stop=_does(fb, BQ, is_notify_all), edge_ok=edge_ok, eh=False)
@@ -384,9 +451,14 @@ def r2(ctx, r):
 
 # ------------------------------------------------------------------ R3 (predicate abstraction)
 
-def _mk_leaf(boolvars, fb=None):
+def _mk_leaf(boolvars, fb=None, waitpred=None):
     def leaf(n):
         k = n.get("k")
+        # a timed predicate wait used as a condition (`if (!cv.wait_for(lock, t, pred)) return false;`): it returns what pred() is
+        # when it returns, evaluated under the lock — the branch on its result is a branch on the predicate
+        if waitpred is not None and k == "mcall" and n.get("callee", "").startswith("std::condition_variable") and last(n["callee"]) in ("wait_for", "wait_until") \
+                and len([a for a in n["args"] if not a.get("def")]) >= 3:
+            return waitpred(n)
         # a call to an expression helper of the queue (`hasSpace()`, `isClosed()`, `hasSpaceOrClosed()`) is the helper's expression
         if fb is not None and k in ("call", "mcall"):
             h = _expr_helper(fb, BQ, n)
@@ -493,10 +565,10 @@ def r3(ctx, r):
         for e in f.stmts():
             if e.node.get("k") == "decl":
                 for v in e.node["vars"]:
-                    if v["t"] == "bool":
+                    if v["t"].replace("const ", "").strip() == "bool":
                         boolvars.add("v:" + v["n"])
         vocab = Vocab(shared + sorted(boolvars))
-        leaf = _mk_leaf(boolvars, fb)
+        leaf = _mk_leaf(boolvars, fb, waitpred=lambda n: pred_formula(n))
 
         def pred_formula(call):
             args = [a for a in call["args"] if not a.get("def")]
@@ -718,6 +790,29 @@ def _buffer_accesses(f, cls, fb=None):
             x = _inline(fb, cls, n)
             if _is_slot_expr(cls, x) and f.elem_for(n) is not None:
                 res.append((f.elem_for(n), strip_casts(x), access.classify(f, n)))
+    # raw storage pointer (`T* slots = _buffer.data();` / `.get()` / `&_buffer[i]`) handed to a range algorithm (`std::copy_n(items, n,
+    # slots + off)`): the call touches slots — which ones is not evaluated, so it carries the publication-order obligation only (kind 'raw')
+    raw_vars, raw_nodes = set(), []
+    for n in f.nodes.values():
+        if n.get("k") == "member" and n.get("n") == cls + "::_buffer":
+            pid = f.parent.get(n["id"])
+            p = f.nodes.get(pid) if pid is not None else None
+            if p is not None and p.get("k") == "mcall" and p.get("obj") is n and last(p.get("callee", "")) in ("data", "get", "begin", "end"):
+                raw_nodes.append(p)
+            elif p is not None and (p.get("k") == "idx" or (p.get("k") == "opcall" and p.get("op") == "[]")):
+                gp = f.nodes.get(f.parent.get(p["id"])) if f.parent.get(p["id"]) is not None else None
+                if gp is not None and gp.get("k") == "un" and gp.get("op") == "&":
+                    raw_nodes.append(gp)
+    for e in f.stmts():
+        if e.node.get("k") == "decl":
+            for v in e.node["vars"]:
+                if isinstance(v.get("init"), dict) and any(any(x is rn for rn in raw_nodes) for x in walk(v["init"])):
+                    raw_vars.add(v["d"])
+    if raw_nodes:
+        for e in f.stmts():
+            n = e.node
+            if n.get("k") == "call" and "root" in e.raw and any((x.get("k") == "var" and x.get("d") in raw_vars) or any(x is rn for rn in raw_nodes) for a in n.get("args", []) for x in walk(a)):
+                res.append((e, n, "raw"))
     return res
 
 
@@ -884,6 +979,9 @@ def r4_r5(ctx, r4, r5):
                     r5.expect(w is None, f, be, "slot access after publish",
                               "a slot access is reachable after the index store that publishes it", witness=witness_str(f, w),
                               okdesc="%s::%s: slot access precedes the %s store" % (last(cls), name, mine))
+                if bk == "raw":
+                    r5.note("%s::%s: `%s` copies a range through a raw slot pointer — the publication order is checked, the range bound is NOT decided" % (last(cls), name, show(bn)[:60]))
+                    continue
                 _bound_obligation(r5, f, cls, role, be, bn, fb)
         if _CACHES[cls]:
             _cache_discipline(r5, fb, cls, ms, role_of, _CACHES[cls])
@@ -957,6 +1055,39 @@ def _min_of(n):
     return None
 
 
+def _clamped_to(f, var, be):
+    """(initial value, b) when the local `var` is clamped to b before the access be:  `n = a; if (b < n) n = b;` — its only write besides
+    the initialiser is one plain assignment `n = b` on the edge of a test of b against n on which b is the smaller, and no path through
+    that edge reaches be around the assignment.  Then n <= b at be, like n = min(a, b).  Dataflow over the CFG; both spellings of the test."""
+    from ..cfg import dominated_by_edge
+    d = var.get("d")
+
+    def is_v(x):
+        x = strip_casts(x) if isinstance(x, dict) else None
+        return x is not None and x.get("k") == "var" and x.get("d") == d
+    assigns = []
+    for n in f.nodes.values():
+        if n.get("k") == "bin" and str(n.get("op", "")).endswith("=") and n["op"] not in ("==", "!=", "<=", ">=") and is_v(n.get("lhs")):
+            assigns.append(n)
+        elif n.get("k") == "un" and ("++" in n.get("op", "") or "--" in n.get("op", "") or n.get("op") == "&") and is_v(n.get("v")):
+            return None
+    if len(assigns) != 1 or assigns[0]["op"] != "=" or f.elem_for(assigns[0]) is None:
+        return None
+    A, bval = f.elem_for(assigns[0]), strip_casts(assigns[0]["rhs"])
+    for b in f.blocks.values():
+        if b.cond is None or len(b.succs) != 2 or not b.term or b.term.get("k") != "IfStmt" or None in b.succs:
+            continue
+        cp = common.cmp_oriented(strip_casts(b.cond), is_v)
+        if not cp or show(strip_casts(cp[1])) != show(bval):
+            continue
+        edge = {"<": 0, "<=": 0, ">": 1, ">=": 1}.get(cp[0])     # the edge on which  b <(=) n
+        if edge is None:
+            continue
+        if dominated_by_edge(f, A, b, edge, eh=False) and search(f, ("block", b.succs[edge]), lambda x: x is be, stop=lambda x: x is A, eh=False) is None:
+            return (_local_init(f, var), bval)
+    return None
+
+
 def _bound_obligation(r5, f, cls, role, be, bn, fb=None):
     """the slot access is dominated by the not-full (producer) / not-empty (consumer) edge, or sits in a loop
     bounded by min(count, available)"""
@@ -1013,10 +1144,12 @@ def _bound_obligation(r5, f, cls, role, be, bn, fb=None):
             if c.get("k") == "bin" and c["op"] == "<" and dominated_by_edge(f, be, b, 0, eh=False):
                 lim = strip_casts(c["rhs"])
                 init = _local_init(f, lim) if lim.get("k") == "var" else lim
-                mn = _min_of(init)
+                mn = _min_of(init) or (_clamped_to(f, lim, be) if lim.get("k") == "var" else None)
                 if mn:
                     for cand in mn:
                         cand = strip_casts(cand)
+                        if cand is None:
+                            continue
                         ci = _local_init(f, cand) if cand.get("k") == "var" else cand
                         ci = strip_casts(ci) if ci else None
                         if ci is None:
